@@ -69,6 +69,41 @@ def run(ctx):
         R.check("C09-D1a action coverage", m in seen, m, mod=asa.module, node=asa.node, function=fq,
                 expected=f"a branch for SignatureAlreadyPresentActions.{m}", found=f"branches for {sorted(seen)}", key_extra=m)
 
+    # the action reaches these comparisons as a member of the enum: every producer of the value converts to it
+    R.rule("C09-D1g action value is the enum", 2, "the CLI option and the recursive configuration both convert the action text to the enum that is compared")
+    cmdm = repo.mod(CMD)
+    enum_ok, default_ok, cli_seen = False, True, 0
+    for f_ in cmdm.functions.values():
+        for n_ in ast.walk(f_.node):
+            if isinstance(n_, ast.Call) and isinstance(n_.func, ast.Attribute) and n_.func.attr == "add_argument" and any(
+                    isinstance(a_, ast.Constant) and a_.value == "--already-signed-action" for a_ in n_.args):
+                cli_seen += 1
+                kw_ = {k.arg: k.value for k in n_.keywords}
+                r_ = repo.resolve_expr(cmdm, kw_["type"]) if "type" in kw_ else None
+                enum_ok = bool(r_) and r_[0] == "class" and r_[1].name == "SignatureAlreadyPresentActions"
+                if "default" in kw_:
+                    d_ = kw_["default"]
+                    default_ok = isinstance(d_, ast.Attribute) and (lambda x: x and x[0] == "class" and x[1].name == "SignatureAlreadyPresentActions")(
+                        repo.resolve_expr(cmdm, d_.value))
+                where_ = n_
+    if not cli_seen:
+        raise AnalysisError("cmd_sign: --already-signed-action option not found")
+    R.check("C09-D1g action value is the enum", enum_ok and default_ok, "--already-signed-action", mod=cmdm, node=where_, function="suit_generator.cmd_sign:add_arguments",
+            expected="type=SignatureAlreadyPresentActions and an enum member as default: a plain string never equals a member, no policy branch would be taken",
+            found="the option value (or its default) reaches the signer as text")
+    cfg_conv = False
+    init_ = repo.func(CMD, "RecursiveSigner.__init__")
+    for n_ in ast.walk(init_.node):
+        if isinstance(n_, ast.Assign) and any(isinstance(t_, ast.Attribute) and t_.attr == "already_signed_action" for t_ in n_.targets):
+            v_ = n_.value
+            if isinstance(v_, ast.Call):
+                r_ = repo.resolve_expr(cmdm, v_.func)
+                if r_ and r_[0] == "class" and r_[1].name == "SignatureAlreadyPresentActions":
+                    cfg_conv = True
+            elif isinstance(v_, ast.Name):
+                cfg_conv = cfg_conv or False
+    R.check("C09-D1g action value is the enum", cfg_conv, "configuration value", mod=init_.module, node=init_.node, function=ctx.fq(init_),
+            expected="SignatureAlreadyPresentActions(envelope_json['already-signed-action'])", found="configuration text stored without conversion")
     R.rule("C09-D1b detection", 2, "an authentication block is a byte string that decodes to tag 18")
     loops = [e for e in eff if isinstance(e, App) and e.op == "eff:loop"]
     det_ok = len(loops) == 1 and loops[0].args[0] == wrapper
